@@ -5,7 +5,8 @@ Stage A: TLC checks the laws of spec/TimersRatesNames.tla on the full domains (t
 Stage B: TLC prints the boundary cases of the specification's case structure (MC_C17_gen); the driver
          replays them on nasConvert and also records seeded random cases and compact chunks of the
          full domains (every duration / every AMBR value).
-Stage C: every observation is judged by TLC (Trace_C17) with the specification's decoders."""
+Stage C: every observation is judged by TLC (Trace_C17) with the specification's decoders.
+Added after seeded round 4: packed network names are held while other names are packed."""
 import json, os, sys
 sys.path.insert(0, os.path.dirname(os.path.dirname(os.path.abspath(__file__))))
 from vlib import *
